@@ -308,6 +308,23 @@ for section, entries in err_json.items():
         else:
             err_table[code] = st if isinstance(st, int) else None
 
+# second source: the Error$Code documentation of the smithy model; where the two sources
+# disagree (or the documentation says N/A) there is no expectation
+doc = shapes.get(NS + "Error", {}).get("members", {}).get("Code", {}).get("traits", {}).get("smithy.api#documentation", "")
+doc_status = {}
+for m_ in re.finditer(r"<i>Code:</i>\s*([A-Za-z0-9]+)\s*</p>(.*?)<i>HTTP Status Code:</i>\s*([^<]*)</p>", doc, re.S):
+    code, status_text = m_.group(1), m_.group(3).strip()
+    sm = re.match(r"(\d{3})", status_text)
+    doc_status[code] = int(sm.group(1)) if sm else None
+if len(doc_status) < 50:
+    die("model: could not read the Error$Code documentation")
+n_disagree = 0
+for code in list(err_table):
+    if code in doc_status and doc_status[code] != err_table[code]:
+        err_table[code] = None
+        n_disagree += 1
+sys.stderr.write(f"gen.py: error table: {len(doc_status)} codes documented in the model, {n_disagree} disagreements -> no expectation\n")
+
 # ----------------------------------------------------------------------------
 # 6. emit
 # ----------------------------------------------------------------------------
@@ -485,6 +502,11 @@ for (meth, i, o) in ops:
 w("    } }")
 w("}")
 
+# Debug renderings of S3Request<T> holding credentials (C16)
+w("pub fn request_debug(input: AnyInput, cred: Option<s3s::auth::Credentials>) -> (String, String) { match input {")
+for (meth, i, o) in ops:
+    w(f"    AnyInput::{op_name(i)}(x) => {{ let mut r = mk_req(x); r.credentials = cred; (format!(\"{{:?}}\", r), format!(\"{{:#?}}\", r)) }}")
+w("} }")
 w("pub fn gen_input(op: &str, g: &mut G) -> Option<AnyInput> { Some(match op {")
 for (meth, i, o) in ops:
     w(f"    {rs_str(op_name(i))} => AnyInput::{op_name(i)}(<{i} as Gen>::gen_value(g)),")
